@@ -24,6 +24,11 @@ CLAIMED.update({
    technique="runtime differential monitor of the core builtins against native Go (math/big progression for range, reflect/strconv/fmt for the others) plus an exhaustive structural invariant over the live package tables (runtime.FuncForPC name / reflect type identity per entry)",
    text="range: all triples of an int64 boundary pool with progressions of at most 10000 elements, each call in a CPU/heap-limited child process so a runaway is a violation with its triple; keys/len/typeOf/kindOf/toX over a broad value universe; misuse (wrong count, wrong kind) must be an error, never a panic; tables: every one of the 443 function and 26 type entries of env.Packages/env.PackageTypes must resolve to the Go symbol it is listed under (complete enumeration, exhaustive:true for that phase).",
    note="Trusted: runtime.FuncForPC naming, Go's reflect/strconv/fmt as reference. Not judged: toBool, bools as toInt/toFloat arguments, load, print*, ambiguous numeral spellings, spread calls with surplus elements."),
+ "C02": dict(
+   cat="exploration", ref="DESIGN.md section 3, C02",
+   technique="runtime monitor over non-terminating programs: after cancel() returned, the call must return with 'execution interrupted' within a logical budget of probe events; a call that does not return is classified from two goroutine-state samples and process CPU time",
+   text="Every core (all loop forms, nested for-in, unbounded recursion through functions of 0/1/3/6/variadic parameters, tick-less loops, every blocking channel operation) under every single wrapper (29 wrapping constructs: call paths, go, try/catch/finally bodies, both sides of ??, ternary, call argument, deferred callees, switch, branches, callbacks handed to Go func types) in both positions is enumerated completely each run, plus PRNG wrapper chains up to depth 3; cancellation lands synchronously at the k-th probe (k swept) or asynchronously after 0-3 ms at GOMAXPROCS 1/2/16.",
+   note="Trusted: the budget of 2*(ticks per cycle)+wrappers+2 post-cancel probe events as 'may finish the expression in progress'; the goroutine-state classifier (parked in vm frames = missed interrupt, parked under a host frame = documented exemption). Wall-clock expiry alone is inconclusive."),
  "C03": dict(
    cat="exploration", ref="DESIGN.md section 3, C03",
    technique="runtime metamorphic monitor over parser output: minimal vs fully parenthesised spellings of generated expression trees must parse to the same tree (reflection dump) and evaluate to the same value; literal spellings compared bit-for-bit with the Go value",
